@@ -1,11 +1,265 @@
-"""Replay of counterexamples against the real code, natively (filled in below)."""
+"""Replay of counterexamples against the real code, natively.
+
+A candidate violation is re-run with Kani's concrete playback (`--concrete-playback=print`): the
+solver's assignment becomes a vector of byte vectors.  It is appended to the (scratch copy of the)
+harness file as a `#[no_mangle] pub fn verif_replay_entry()` that calls
+`kani::concrete_playback_run(values, <harness>)`, and a tiny runner binary that links the package
+calls it.  The runner is built with exactly the flags `cargo kani playback` uses (Kani's playback
+sysroot, `--cfg=kani`), in the dev profile and in the release profile, so the real fastrace source
+(and the environment models, which are ordinary Rust) execute natively on the solver's values.
+`cargo kani playback` itself cannot be used for in-crate harnesses: it builds the crate with
+`cfg(test)`, which swaps fastrace's GlobalCollect for a mock and needs the dev-dependencies.
+"""
+import json
 import os
+import re
+import shutil
+import subprocess
+import time
+
+from . import overlay, kani
+
+VERIF = overlay.VERIF
+KANI_HOME = os.path.expanduser("~/.kani/kani-0.68.0")
+SEP = "\x1f"
+PLAYBACK_RUSTFLAGS = SEP.join([
+    "-Coverflow-checks=on", "-Zunstable-options", "-Ztrim-diagnostic-paths=no", "-Zhuman_readable_cgu_names",
+    "-Zalways-encode-mir", "--cfg=kani", "-Zcrate-attr=feature(register_tool)",
+    "-Zcrate-attr=register_tool(kanitool)", "--sysroot", f"{KANI_HOME}/playback",
+    "-L", f"{KANI_HOME}/playback/lib", "--extern", "force:kani",
+    "--extern", f"noprelude,nounused:std={KANI_HOME}/playback/lib/libstd.rlib",
+])
 
 
-def make_and_run(scratch, prop, h, r, failed, logs):
-    return {"reproduced": False, "why": "replay not implemented yet", "path": ""}
+def harness_source_file(root, h):
+    """Scratch copy of the file that contains harness `h`."""
+    if h["pkg"] in ("harness-crate", "harness-disabled"):
+        mod = h["mod"].split("::")[0] if h["mod"] else "lib"
+        return os.path.join(root, h["pkg"], "src", mod + ".rs")
+    for crate, files in overlay.IN_CRATE_HARNESSES.items():
+        if crate != h["pkg"]:
+            continue
+        for rel, hfile in files:
+            modpath = rel[len("src/"):-len(".rs")].replace("/", "::")
+            if modpath == "lib":
+                modpath = ""
+            if modpath == (h["mod"] or ""):
+                return os.path.join(root, "verif-harness", hfile)
+    raise RuntimeError("no source file for harness " + h["path"])
+
+
+def extract_playback(text):
+    """All generated tests: list of (check description, vec literal text)."""
+    out = []
+    for m in re.finditer(r"```\n(.*?)```", text, re.S):
+        body = m.group(1)
+        mv = re.search(r"let concrete_vals: Vec<Vec<u8>> = (vec!\[.*?\n    \]);", body, re.S)
+        md = re.findall(r"/// Check for `[^`]*`: \"(.*)\"", body)
+        if mv:
+            out.append((md, mv.group(1), body))
+    return out
+
+
+def write_runner(root, h):
+    d = os.path.join(root, "verif-replay-runner")
+    shutil.rmtree(d, ignore_errors=True)
+    os.makedirs(os.path.join(d, "src"))
+    feats = {"fastrace": '["enable"]', "fastrace-futures": '["verif-enable"]', "fastrace-jaeger": '["verif-enable"]',
+             "fastrace-datadog": '["verif-enable"]', "fastrace-opentelemetry": '["verif-enable"]'}.get(h["pkg"], "[]")
+    crate = h["pkg"].replace("-", "_")
+    open(os.path.join(d, "Cargo.toml"), "w").write(
+        f'[package]\nname = "verif-replay-runner"\nversion = "0.0.0"\nedition = "2021"\npublish = false\n\n'
+        f'[dependencies]\n{h["pkg"]} = {{ path = "../{h["pkg"]}", features = {feats} }}\n')
+    open(os.path.join(d, "src", "main.rs"), "w").write(
+        f"extern crate {crate};\n#[allow(unused_imports)]\nuse {crate} as _;\n"
+        "extern \"Rust\" {\n    fn verif_replay_entry();\n}\n"
+        "fn main() {\n    unsafe { verif_replay_entry() }\n    println!(\"VERIF-REPLAY: harness returned normally\");\n}\n")
+    ws = os.path.join(root, "Cargo.toml")
+    txt = open(ws).read()
+    if '"verif-replay-runner"' not in txt:
+        txt = re.sub(r"members\s*=\s*\[", 'members = ["verif-replay-runner", ', txt, count=1)
+        open(ws, "w").write(txt)
+
+
+def install_entry(root, h, vec_text):
+    src = harness_source_file(root, h)
+    txt = open(src).read()
+    txt = re.sub(r"\n// VERIF-REPLAY-BEGIN.*?// VERIF-REPLAY-END\n", "\n", txt, flags=re.S)
+    txt += ("\n// VERIF-REPLAY-BEGIN\n#[no_mangle]\npub fn verif_replay_entry() {\n"
+            f"    let concrete_vals: Vec<Vec<u8>> = {vec_text};\n"
+            f"    kani::concrete_playback_run(concrete_vals, {h['name']});\n}}\n// VERIF-REPLAY-END\n")
+    open(src, "w").write(txt)
+
+
+def run_native(root, release, log_path, timeout=600):
+    env = dict(kani.ENV)
+    env["CARGO_ENCODED_RUSTFLAGS"] = PLAYBACK_RUSTFLAGS
+    env["RUSTC"] = f"{KANI_HOME}/bin/kani-compiler"
+    env["CARGO_TERM_PROGRESS_WHEN"] = "never"
+    env["RUST_BACKTRACE"] = "0"
+    cmd = [f"{KANI_HOME}/toolchain/bin/cargo", "run", "-q", "-p", "verif-replay-runner",
+           "--target", "x86_64-unknown-linux-gnu", "-Zhost-config", "-Ztarget-applies-to-host",
+           '--config=host.rustflags=["--cfg=kani_host"]', "--target-dir", os.path.join(root, "tgt-replay")]
+    if release:
+        cmd.append("--release")
+    with open(log_path, "w") as lf:
+        try:
+            r = subprocess.run(cmd, cwd=root, env=env, stdout=lf, stderr=subprocess.STDOUT, timeout=timeout)
+            rc = r.returncode
+        except subprocess.TimeoutExpired:
+            rc = -9
+    out = open(log_path, errors="replace").read()
+    panicked = "panicked at" in out
+    normal = "VERIF-REPLAY: harness returned normally" in out
+    built = not re.search(r"^error(\[E\d+\])?:|could not compile", out, re.M) or panicked
+    msg = ""
+    m = re.search(r"panicked at ([^\n]*)\n([^\n]*)", out)
+    if m:
+        msg = (m.group(1) + " " + m.group(2)).strip()
+    return {"rc": rc, "panicked": panicked, "returned": normal, "built": built, "timeout": rc == -9, "msg": msg[:300]}
+
+
+def cbmc_counterexample(res, check_name, log_path, slice_formula=True, timeout=900, mem_gb=30):
+    """Re-run CBMC on the harness's goto binary for ONE failed property with trace generation and
+    return the values of the harness's kani::any() calls in execution order (as Kani's concrete
+    playback does: assignments to the return value of kani::any_raw_*), or None.
+    Kani's own `--concrete-playback` switches formula slicing off and asks for all properties at
+    once, which runs out of memory on the larger harnesses; one property + slicing takes seconds."""
+    m = re.search(r"\[Kani\] Running: `(cbmc [^`]*)`", open(res["log"], errors="replace").read())
+    if not m:
+        return None
+    import shlex
+    cmd = shlex.split(m.group(1))
+    cmd = [c for c in cmd if c not in ("--verbosity", "9")]
+    if "--verbosity" in m.group(1):
+        cmd = [c for c in shlex.split(m.group(1))]
+        k = cmd.index("--verbosity")
+        del cmd[k:k + 2]
+    if not slice_formula:
+        cmd = [c for c in cmd if c != "--slice-formula"]
+    cmd += ["--trace", "--compact-trace", "--property", check_name]
+    with open(log_path, "w") as lf:
+        try:
+            subprocess.run(cmd, stdout=lf, stderr=subprocess.DEVNULL, timeout=timeout,
+                           preexec_fn=kani._limits(mem_gb))
+        except subprocess.TimeoutExpired:
+            return None
+    try:
+        data = json.load(open(log_path))
+    except Exception:
+        return None
+    for item in data:
+        if not (isinstance(item, dict) and "result" in item):
+            continue
+        for r in item["result"]:
+            if r.get("property") != check_name or r.get("status") != "FAILURE":
+                continue
+            vals = []
+            for st in r.get("trace", []):
+                fn = (st.get("sourceLocation") or {}).get("function", "")
+                lhs = st.get("lhs") or ""
+                v = st.get("value") or {}
+                if st.get("stepType") == "assignment" and lhs.startswith("goto_symex$$return_value") \
+                        and fn.startswith("kani::any_raw_") and v.get("binary") is not None:
+                    bits = v["binary"]
+                    bs = [int(bits[k:k + 8], 2) for k in range(0, len(bits), 8)]
+                    bs.reverse()
+                    vals.append((v.get("data", ""), bs))
+            return vals
+    return None
+
+
+def vec_literal(vals):
+    lines = ["vec!["]
+    for data, bs in vals:
+        lines.append(f"        // {data}")
+        lines.append("        vec![" + ", ".join(str(b) for b in bs) + "],")
+    lines.append("    ]")
+    return "\n".join(lines)
+
+
+def make_and_run(root, prop, h, res, failed, logs):
+    """Produce concrete values for the failing harness, replay natively, store the replay file."""
+    os.makedirs(os.path.join(VERIF, "replays"), exist_ok=True)
+    path = os.path.join(VERIF, "replays", f"{prop}-{h['name']}.rs")
+    last = {"reproduced": False, "why": "no counterexample trace could be produced", "path": ""}
+    # try the failed checks in order, sliced first, then unsliced
+    attempts = [(f, True) for f in failed[:3]] + [(failed[0], False)]
+    for f, sl in attempts:
+        vals = cbmc_counterexample(res, f["name"], os.path.join(logs, f"{h['name']}.trace.json"), slice_formula=sl)
+        if vals is None:
+            continue
+        vec = vec_literal(vals)
+        body = (f"/// Counterexample for harness `{h['path']}`\n///\n/// Failed check `{f['name']}`: {f['desc']}\n"
+                f"/// at {f['loc']}\n\n#[test]\nfn kani_concrete_playback_{h['name']}() {{\n"
+                f"    let concrete_vals: Vec<Vec<u8>> = {vec};\n"
+                f"    kani::concrete_playback_run(concrete_vals, {h['name']});\n}}\n")
+        meta = {"property": prop, "pkg": h["pkg"], "mod": h["mod"], "name": h["name"], "path": h["path"],
+                "failed_checks": [f"{x['desc']} @ {x['loc']}" for x in failed][:6],
+                "created": time.strftime("%Y-%m-%dT%H:%M:%S")}
+        rr = _replay(root, h, vec, logs)
+        last = rr
+        last["path"] = path
+        if rr["reproduced"] or (f, sl) == attempts[-1]:
+            with open(path, "w") as fo:
+                fo.write("// VERIF-REPLAY-META " + json.dumps(meta) + "\n")
+                fo.write("// Counterexample found by Kani/CBMC; replay with:  ./run.py --replay " + path + "\n")
+                fo.write("// The values are the solver's assignment to the harness's kani::any() calls, in call order.\n")
+                fo.write(body)
+                fo.write(f"\n// native replay when recorded: dev={rr['dev']}  release={rr['release']}\n")
+        if rr["reproduced"]:
+            return rr
+    return last
+
+
+def _replay(root, h, vec, logs):
+    write_runner(root, h)
+    install_entry(root, h, vec)
+    dev = run_native(root, False, os.path.join(logs, f"{h['name']}.replay-dev.log"))
+    rel = run_native(root, True, os.path.join(logs, f"{h['name']}.replay-release.log"))
+
+    def verdict(x):
+        if x["timeout"]:
+            return "does-not-terminate" if h.get("termination") else "timeout"
+        if x["panicked"]:
+            return "fails: " + x["msg"]
+        if x["returned"]:
+            return "passes"
+        return "build-error" if not x["built"] else f"rc={x['rc']}"
+
+    vd, vr = verdict(dev), verdict(rel)
+    ok = vd.startswith("fails") or vr.startswith("fails") or vd == "does-not-terminate" or vr == "does-not-terminate"
+    why = "" if ok else f"dev: {vd}; release: {vr}"
+    return {"reproduced": ok, "dev": vd, "release": vr, "why": why}
 
 
 def replay_file(path, scratch, keep=False):
-    print("replay not implemented yet")
-    return 2
+    from . import specs
+    txt = open(path).read()
+    m = re.search(r"// VERIF-REPLAY-META (\{.*\})", txt)
+    if not m:
+        print("not a replay file:", path)
+        return 2
+    meta = json.loads(m.group(1))
+    mv = re.search(r"let concrete_vals: Vec<Vec<u8>> = (vec!\[.*?\n    \]);", txt, re.S)
+    h = next((x for x in specs.HARNESSES if x["path"] == meta["path"] and x["pkg"] == meta["pkg"]), None)
+    if h is None or not mv:
+        print("harness", meta["path"], "is not registered any more")
+        return 2
+    try:
+        if os.path.exists(scratch):
+            shutil.rmtree(scratch)
+        overlay.build(scratch)
+        logs = os.path.join(scratch, "logs")
+        os.makedirs(logs, exist_ok=True)
+        rr = _replay(scratch, h, mv.group(1), logs)
+        print(f"replay of {meta['path']} on the current tree: dev: {rr['dev']} | release: {rr['release']}")
+        if rr["reproduced"]:
+            print(f"VIOLATION property={meta['property']} replay={path}")
+            return 1
+        if "build-error" in (rr["dev"], rr["release"]):
+            return 2
+        return 0
+    finally:
+        if not keep:
+            shutil.rmtree(scratch, ignore_errors=True)
